@@ -1,12 +1,11 @@
 import JL.Generated.Fns
+import JL.Lemmas.TieAuto
 import JL.Tie.to_number
 /-! tie: `abstract_mod`, as translated from the crate's current source, is the model's function - for every input -/
 namespace JL.Tie
 open JL
 
 theorem abstract_mod (a b : Json) : Gen.abstract_mod a b = JsOp.abstractMod a b := by
-  unfold Gen.abstract_mod JsOp.abstractMod
-  rw [to_number, to_number]
-  cases JsOp.toNumber a <;> cases JsOp.toNumber b <;> simp [rs]
+  tie_close [Gen.abstract_mod, JsOp.abstractMod, to_number] splitting JsOp.toNumber
 
 end JL.Tie
